@@ -249,7 +249,8 @@ def parseSysCase (j : Json) : Except String SysCase := do
   let vMc ← getOptNat cj "maxCores"
   let vMw ← getOptNat cj "maxWorkers"
   let vEc := (cj.getObjValAs? Nat "execCores").toOption.getD 1
-  let cfg : Sys.Cfg := Sys.Cfg.mk vRes vBlock vMc vMw vEc calls
+  let vEt := (cj.getObjValAs? Nat "execThreads").toOption.getD 1
+  let cfg : Sys.Cfg := Sys.Cfg.mk vRes vBlock vMc vMw vEc vEt calls
   let script ← (← j.getObjValAs? (Array Json) "script").toList.mapM parseCmd
   pure { cfg, base, fail, script }
 
